@@ -332,8 +332,11 @@ class Ctx:
             raise PathEnd()
         self.pc.append(cond)
 
-    def branch(self, cond) -> bool:
-        """Top-level fork on a z3 Bool. Returns the side taken on this run."""
+    def branch(self, cond, raising: bool = False) -> bool:
+        """Top-level fork on a z3 Bool. Returns the side taken on this run.
+        Under a predicate stack outside generic mode (predicated simple ifs), the decision is relative to the
+        predicate g: the sides are  g => cond  and  g => not cond  (`raising`: the false side is  g and not cond,
+        the states in which the exception really happens)."""
         if isinstance(cond, bool):
             return cond
         cond = z3.simplify(cond)
@@ -341,6 +344,7 @@ class Ctx:
             return True
         if z3.is_false(cond):
             return False
+        g = z_and(*self.preds) if (self.preds and not self.generic) else True
         pos = len(self.decisions)
         if pos < len(self.prefix):
             take = self.prefix[pos]
@@ -357,7 +361,16 @@ class Ctx:
             else:
                 raise PathEnd()
         self.decisions.append(take)
-        self.pc.append(cond if take else z3.Not(cond))
+        if g is True:
+            c = cond if take else z3.Not(cond)
+            if not any(c.eq(p) for p in self.pc[-40:] if z3.is_expr(p)):
+                self.pc.append(c)
+        elif take:
+            self.pc.append(z3.Implies(z_bool(g), cond))
+        elif raising:
+            self.pc.append(z3.And(z_bool(g), z3.Not(cond)))
+        else:
+            self.pc.append(z3.Implies(z_bool(g), z3.Not(cond)))
         return take
 
 
@@ -392,8 +405,9 @@ class Interp:
     """One interpreter per path (ctx)."""
 
     def __init__(self, ctx: Ctx, contracts: Optional[dict] = None, packages=('wn',),
-                 no_inline: Optional[set] = None):
+                 no_inline: Optional[set] = None, options: Optional[dict] = None):
         self.ctx = ctx
+        self.options = options or {}
         self.contracts = contracts or {}     # key: function object or qualified name -> handler
         self.packages = packages
         self.no_inline = no_inline or set()
@@ -782,6 +796,10 @@ class Interp:
         if isinstance(cond, bool):
             return self.exec_block(node.body if cond else node.orelse, env)
         if not self.ctx.generic:
+            if self.options.get('predicate_simple_ifs') and not node.orelse and _simple_store_block(node.body):
+                return self.exec_predicated(cond, node.body, node.orelse, env)
+            if self.fn_stack and self.fn_stack[-1].name in self.options.get('predicate_all_ifs_in', ()):
+                return self.exec_predicated(cond, node.body, node.orelse, env)
             take = ctx.branch(cond)
             return self.exec_block(node.body if take else node.orelse, env)
         # predicated execution inside a generic iteration
@@ -794,7 +812,7 @@ class Interp:
             return self.exec_block(body, env)
         if z3.is_false(cond):
             return self.exec_block(orelse, env)
-        frame = ctx.generic[-1]
+        frame = ctx.generic[-1] if ctx.generic else None
         before = dict(env.vars)
         results = []
         for c, blk in ((cond, body), (z3.Not(cond), orelse)):
@@ -805,6 +823,8 @@ class Interp:
                     try:
                         self.exec_block(blk, env)
                     except _Continue:
+                        if frame is None:
+                            raise
                         frame.active = z_and(frame.active, z_not(z_and(*ctx.preds[frame.pred_base:])))
             finally:
                 ctx.preds.pop()
@@ -1004,6 +1024,11 @@ class Interp:
     # ======================================================================================
     def concrete_items(self, it):
         """Return a Python list of items if `it` has concrete structure, else None."""
+        from vc.pyvc.values import SRec as _SRec
+        if isinstance(it, _SRec) and getattr(it, 'owned', False):
+            # a dict built by the interpreted code: iteration yields its keys (conditional keys keep their guard)
+            from vc.pyvc import builtins_sym as _B
+            it = _B.rec_keys(self, it, [], {}, None)
         if isinstance(it, MList):
             return it.items() if it.is_concrete() else None
         if isinstance(it, (list, tuple)):
@@ -1030,6 +1055,10 @@ class Interp:
         return None
 
     def to_seq(self, it) -> Seq:
+        from vc.pyvc.values import SRec as _SRec
+        if isinstance(it, _SRec) and getattr(it, 'owned', False):
+            from vc.pyvc import builtins_sym as _B
+            it = _B.rec_keys(self, it, [], {}, None)
         if isinstance(it, Seq):
             return it
         if isinstance(it, SList):
@@ -1080,6 +1109,22 @@ class Interp:
                     return
                 except _Continue:
                     continue
+            self.exec_block(list(orelse), env)
+            return
+        if self.options.get('record_dicts') and not self.ctx.generic and isinstance(it, MList) and \
+                all(isinstance(n, Lit) and not contains_sym(n.elem) for n in it.nodes):
+            # keys of a record with conditional keys: the body runs per key under the key's presence condition
+            for n in list(it.nodes):
+                self.assign(target, n.elem, env)
+                if n.guard is True:
+                    self.exec_block(body, env)
+                    continue
+                self.ctx.preds.append(z_bool(n.guard))
+                try:
+                    if self.ctx.feasible(z3.BoolVal(True)):
+                        self.exec_block(body, env)
+                finally:
+                    self.ctx.preds.pop()
             self.exec_block(list(orelse), env)
             return
         seq = self.to_seq(it)
@@ -1318,6 +1363,15 @@ class Interp:
         return MSet([self.eval(e, env) for e in node.elts])
 
     def expr_Dict(self, node, env):
+        if self.options.get('record_dicts') and all(
+                isinstance(k, ast.Constant) and isinstance(k.value, str) for k in node.keys):
+            # dict literal with constant string keys: a record (keys may later be added under a predicate)
+            from vc.pyvc.values import SRec, Slot
+            rec = SRec(f'dict@{node.lineno}')
+            rec.owned = True
+            for k, v in zip(node.keys, node.values):
+                rec.slots[k.value] = Slot(True, self.eval(v, env))
+            return rec
         d = MDict()
         for k, v in zip(node.keys, node.values):
             if k is None:
@@ -1576,7 +1630,12 @@ class Interp:
         return out
 
     def expr_DictComp(self, node, env):
-        out = MDict()
+        if self.options.get('record_dicts'):
+            from vc.pyvc.values import SRec
+            out = SRec(f'dictcomp@{node.lineno}')
+            out.owned = True
+        else:
+            out = MDict()
         self._comp(node.generators, 0, env,
                    lambda e: self.setitem(out, self.eval(node.key, e), self.eval(node.value, e), node))
         return out
@@ -1602,7 +1661,7 @@ class Interp:
             if c:
                 self._comp_ifs(ifs, j + 1, env, cont)
             return
-        if not self.ctx.generic:
+        if not self.ctx.generic and not self.options.get('record_dicts'):
             if self.ctx.branch(c):
                 self._comp_ifs(ifs, j + 1, env, cont)
             return
@@ -1821,7 +1880,7 @@ class Interp:
             frame.active = z_and(frame.active, z3.Or(z_not(z_and(*ctx.preds[frame.pred_base:])), cond)
                                  if ctx.preds[frame.pred_base:] else cond)
             return
-        if not ctx.branch(cond):
+        if not ctx.branch(cond, raising=True):
             raise PyRaise(exc_type, (what,), node)
 
 
@@ -1829,6 +1888,18 @@ class Interp:
 # helpers
 
 _MISSING = object()
+
+
+def _simple_store_block(stmts) -> bool:
+    """`if c: d[k] = v` / `if c: obj.set(k, v)`: a block of stores into containers (no control flow, no names bound)."""
+    for st in stmts:
+        if isinstance(st, ast.Assign) and all(isinstance(t, ast.Subscript) for t in st.targets):
+            continue
+        if isinstance(st, ast.Expr) and isinstance(st.value, ast.Call) and isinstance(st.value.func, ast.Attribute) \
+                and st.value.func.attr in ('set',):
+            continue
+        return False
+    return True
 
 
 class _LoopLocal:
@@ -2112,7 +2183,7 @@ def _defining_class(cls, name):
 # path exploration
 
 def explore(run: Callable[[Interp], Any], contracts=None, max_paths: int = 4000, packages=('wn',),
-            no_inline=None, pre=(), predicated: bool = False) -> list[Outcome]:
+            no_inline=None, pre=(), predicated: bool = False, options=None) -> list[Outcome]:
     """Run `run(interp)` on every path. Returns one Outcome per feasible path."""
     outcomes: list[Outcome] = []
     work: list[list[bool]] = [[]]
@@ -2122,7 +2193,7 @@ def explore(run: Callable[[Interp], Any], contracts=None, max_paths: int = 4000,
         global CURRENT_CTX
         CURRENT_CTX = ctx
         ctx.pc.extend(pre)
-        interp = Interp(ctx, dict(contracts or {}), packages, no_inline)
+        interp = Interp(ctx, dict(contracts or {}), packages, no_inline, options)
         if predicated:
             # run everything under a trivial generic frame: symbolic branches are predicated instead of forked
             fr = GenericFrame([], True)
